@@ -48,9 +48,10 @@ DOC_MATH_MACROS = ['ensuremath']
 DOC_MATH_ENVS = ['equation', 'equation*', 'eqnarray', 'eqnarray*', 'align', 'align*', 'multline', 'multline*', 'gather',
                  'gather*', 'dmath', 'dmath*', 'alignat', 'alignat*', 'split', 'flalign', 'flalign*', 'math', 'displaymath']
 MODES_LISTS = {
-    'k': dict(textmacros=['t'], mathmacros=['q'], mathenvs=['q']),
-    'knounk': dict(textmacros=[], mathmacros=[], mathenvs=[]),
-    'default': dict(textmacros=DOC_TEXT_MACROS, mathmacros=DOC_MATH_MACROS, mathenvs=DOC_MATH_ENVS),
+    # argmodes: (macro, argument index, mode) for macros that declare the mode of one argument slot only
+    'k': dict(textmacros=['t'], mathmacros=['q'], mathenvs=['q'], argmodes=[('A', 1, 'text'), ('S', 1, 'math')]),
+    'knounk': dict(textmacros=[], mathmacros=[], mathenvs=[], argmodes=[]),
+    'default': dict(textmacros=DOC_TEXT_MACROS, mathmacros=DOC_MATH_MACROS, mathenvs=DOC_MATH_ENVS, argmodes=[]),
 }
 
 
@@ -67,8 +68,9 @@ def modes_cfg(ctxname, st_kw=None):
 def modes_cfg_tla(ctxname, st_kw=None):
     d = modes_cfg(ctxname, st_kw)
     seq = lambda xs: '<<' + ', '.join(common.tla_seq(x) for x in xs) + '>>'
-    return ('[textmacros |-> %s, mathmacros |-> %s, mathenvs |-> %s, inline_open |-> %s, pairs |-> %s, top_math |-> %s, top_delim |-> %s]'
-            % (seq(d['textmacros']), seq(d['mathmacros']), seq(d['mathenvs']), seq(d['inline_open']),
+    return ('[textmacros |-> %s, mathmacros |-> %s, mathenvs |-> %s, argmodes |-> %s, inline_open |-> %s, pairs |-> %s, top_math |-> %s, top_delim |-> %s]'
+            % (seq(d['textmacros']), seq(d['mathmacros']), seq(d['mathenvs']),
+               '<<' + ', '.join('<<%s, %d, "%s">>' % (common.tla_seq(m), i, w) for m, i, w in d['argmodes']) + '>>', seq(d['inline_open']),
                '<<' + ', '.join(seq(p) for p in d['pairs']) + '>>',
                'TRUE' if d['top_math'] else 'FALSE', common.tla_seq(d['top_delim'])))
 
@@ -76,7 +78,8 @@ def modes_cfg_tla(ctxname, st_kw=None):
 def modes_cfg_json(ctxname, st_kw=None):
     d = modes_cfg(ctxname, st_kw)
     return dict(textmacros=[common.codes(x) for x in d['textmacros']], mathmacros=[common.codes(x) for x in d['mathmacros']],
-                mathenvs=[common.codes(x) for x in d['mathenvs']], inline_open=[common.codes(x) for x in d['inline_open']],
+                mathenvs=[common.codes(x) for x in d['mathenvs']],
+                argmodes=[[common.codes(m), i, w] for m, i, w in d['argmodes']], inline_open=[common.codes(x) for x in d['inline_open']],
                 pairs=[[common.codes(a), common.codes(b)] for a, b in d['pairs']],
                 top_math=d['top_math'], top_delim=common.codes(d['top_delim']))
 
